@@ -6,5 +6,5 @@ import simcheck, simfam
 from checklib import Family
 # long histories: the recorded series crosses the doubling of its arrays (1024 samples); durations must survive
 simfam.FAMILIES['C14'] = simfam.FAMILIES['C14'] + [
-    Family('history-array-growth', 'h_c18.c', 'h_growth', ['N=1'], opts={'time_limit': 420}, weight=3, validate=2)]
+    Family('history-array-growth', 'h_c18.c', 'h_growth', ['N=1'], opts={'time_limit': 900}, weight=3, validate=2)]
 simcheck.run('C14')
